@@ -23,6 +23,38 @@ class C10Episode(Episode):
         # (a reply or a freed slot while the operation goes on in the
         # background lets the next request run beside it)
         w.kernel.on_spawn = self.on_spawn
+        w.kernel.on_signal = self.on_signal
+
+    def on_signal(self, entry, p):
+        """a worker is only ever terminated by an operation that holds the
+        slot - or by a kill request, the one command outside it"""
+        w = self.world
+        a = w.arbiter
+        if a is None or w.start_future is None or \
+                not w.start_future.done() or w.daemon_gone():
+            return
+        if 'kill_process' not in (entry.get('sender') or []) or \
+                entry.get('effect') in ('probe',):
+            return
+        if a._exclusive_running_command is not None or a._stopping:
+            return
+        now = w.sim.now
+        for q in w.reqs:
+            if q.cmd == 'kill' and q.dispatched and q.disp_t is not None \
+                    and q.accepted is not False and now - q.disp_t <= 35.0:
+                return          # may be that kill request's doing
+        for c in w.hook_calls:
+            if c[3] == 'after_spawn' and c[4] != 'true' and \
+                    (c[5] or {}).get('pid') == entry['pid']:
+                # a worker its after_spawn hook rejected: spawn_process (no
+                # coroutine) leaves its termination to the background
+                self.probes['rejected_worker_killed_in_background'] += 1
+                return
+        self.viol('termination_outside_any_operation',
+                  'signal %s sent to worker %s by kill_process while no '
+                  'state-changing operation held the slot and no kill '
+                  'request was under way' % (entry['sig'], entry['pid']),
+                  once='sig_free')
 
     def on_spawn(self, p):
         w = self.world
